@@ -73,6 +73,9 @@ def make(debug, cells=None):
         deep = [deep]
     P.set_variable('v_badrepr', BadRepr())
     P.set_variable('v_deep', deep)
+    # a callFunction listener that edits the argument list it is handed (legal: the list is the call's own), and a function that counts its arguments
+    P.set_function('ZARGS', lambda *a: len(a))
+    P.on('callFunction', lambda name, args, setter: args.append(5) if name == 'ZARGS' else None)
     P.set_function('CTXBOOM', ctxboom)
     P.set_function('CTXNEST', ctxnest)
     P.set_function('VARBOOM', varboom)
@@ -126,7 +129,7 @@ failing = st.one_of(
                      '1/0', 'v_s+1', 'nosuch', 'NOSUCH(1)', 'SUM(v_e)', 'v_e', 'INDEX(v_l,9)', 'SQRT(-1)', 'IF()', 'LEFT(1)', 'MAX("a")',                # run-time errors
                      '#N/A', '1+#REF!', '#GETTING_DATA', '#NULL!',                                                                                       # error literals
                      'BOOM(1)', '1+BOOM(2)*3', 'XBOOM()', 'SUM(1,XBOOM())', 'Z9', 'Z9+1', 'IFERROR(BOOM(),1)', 'CONCATENATE(1/0)', 'IFERROR(CONCATENATE(1/0),1)',  # raising callbacks
-                     'INNERFAIL(1)', '1+INNERFAIL(BOOM(1))', 'ID(INNERFAIL())+BOOM()', 'CTXBOOM()', '1+CTXBOOM(2)', 'IFERROR(CTXBOOM(),1)', 'CTXNEST()', 'CTXNEST()&CTXBOOM()']),                                                                # nested failures
+                     'INNERFAIL(1)', '1+INNERFAIL(BOOM(1))', 'ID(INNERFAIL())+BOOM()', 'CTXBOOM()', '1+CTXBOOM(2)', 'IFERROR(CTXBOOM(),1)', 'CTXNEST()', 'CTXNEST()&CTXBOOM()', 'ZARGS()', 'ZARGS()+ZARGS(1)', 'ZARGS()&BOOM()']),                                                                # nested failures
     trees(extra_calls=('BOOM', 'XBOOM', 'INNERFAIL')),
     valid.map(lambda s: s[:max(1, len(s) // 2)]),
 )
@@ -193,9 +196,9 @@ def check_history(case):
             if g['error'] is not None or g['result'] != w:
                 raise Violation('after the history %r the parser evaluates %r to %r; its listener answers from the coordinates of the reference, which give %r' % (case['history'][:step + 1], p, g, w), g['error'] or enc(g['result']), w)
         # error codes are facts too: whatever was raised, chained or handled before, these fail with their own code
-        for p, w in (('"q"+1', '#VALUE!'), ('1/0', '#DIV/0!'), ('NA()', '#N/A'), ('IFERROR("q"+1,"trapped")', None), ('CTXNEST()', None), ('XBOOM()', '#REF!'), ('BOOM()', '#ERROR!')):
+        for p, w in (('"q"+1', '#VALUE!'), ('1/0', '#DIV/0!'), ('NA()', '#N/A'), ('IFERROR("q"+1,"trapped")', None), ('CTXNEST()', None), ('XBOOM()', '#REF!'), ('BOOM()', '#ERROR!'), ('ZARGS()*100+ZARGS(7,8)*10+(PI()>3)', None)):
             g = quiet_parse(P, p)
-            if g['error'] != w or (w is None and g['result'] != {'IFERROR("q"+1,"trapped")': 'trapped', 'CTXNEST()': '#ERROR!'}[p]):
+            if g['error'] != w or (w is None and g['result'] != {'IFERROR("q"+1,"trapped")': 'trapped', 'CTXNEST()': '#ERROR!', 'ZARGS()*100+ZARGS(7,8)*10+(PI()>3)': 21}[p]):
                 raise Violation('after the history %r the parser evaluates %r to %r; expected %s' % (case['history'][:step + 1], p, g, w or 'no error'), g['error'] or enc(g['result']), w)
         # names that were only ever registered on the other parser object stay unknown here
         for p in ('EXTRA(1)', 'v_other'):
@@ -228,6 +231,22 @@ def hist_classes(case):
         out.append('error-literal')
     out.append('debug:%s' % case['debug'])
     return out
+
+
+# ---------------------------------------------------------------- long histories of failing evaluations on one parser
+
+LONG_FAIL = ['nosuch', 'NOSUCH(1)', '1+', '((', '#N/A', '1+#REF!', 'BOOM(1)', 'XBOOM()', 'Z9', '~', 'SUM(v_e)', 'CTXBOOM()', 'INNERFAIL(1)', 'IFERROR(BOOM(),1)', '1/0', 'v_s+1', 'VARBOOM()', '"open', 'ZARGS()', '2*3']
+
+
+def check_long_history(case):
+    P = make(case['debug'])
+    pat = case['pattern']
+    for i in range(case['n']):
+        f = LONG_FAIL[pat[i % len(pat)]]
+        quiet_parse(P, f)
+        g = quiet_parse(P, '1+SUM(F6:H8)*2+LEN("abc")')
+        if g['error'] is not None or g['result'] != 52:
+            raise Violation('after %d evaluations on one parser (repeating %r, debug=%r) 1+SUM(F6:H8)*2+LEN("abc") gives %r instead of 52' % (i + 1, [LONG_FAIL[j] for j in pat], case['debug'], g), g['error'] or enc(g['result']), 52)
 
 
 # ---------------------------------------------------------------- no mutation of host values
@@ -427,17 +446,7 @@ def order_formulas(draw):
 order_case = st.fixed_dictionaries({'formulas': order_formulas(), 'debug': st.booleans(), 'perm': st.integers(0, 10 ** 6)})
 
 
-def run_fresh(formulas, debug):
-    import subprocess
-    import sys
-    from .. import snapshot
-    here = os.path.join(os.path.dirname(os.path.dirname(os.path.abspath(__file__))), 'fresh_eval.py')
-    p = subprocess.run([sys.executable, here, snapshot.directory()], input=json.dumps({'formulas': formulas, 'debug': debug}), capture_output=True, text=True, timeout=120,
-                       env=dict(os.environ, PYTHONHASHSEED='0', PYTHONDONTWRITEBYTECODE='1'))
-    if p.returncode != 0:
-        # the library cannot even be imported or the child died: not a verdict about evaluation order
-        raise RuntimeError('fresh interpreter failed: %s' % p.stderr[-400:])
-    return json.loads(p.stdout)
+from ..freshproc import run_fresh      # noqa: E402
 
 
 def check_order(case):
@@ -456,11 +465,15 @@ def check_order(case):
 
 
 LAWS = [
-    Law('history_independence', check_history, strategy=history_case, classes=hist_classes, quick=3500, thorough=150000, shards=(16, 16),
+    Law('history_independence', check_history, strategy=history_case, classes=hist_classes, quick=2400, thorough=150000, shards=(16, 16),
         required=('callback-aborted', 'nested-failure', 'syntax-error', 'error-literal', 'rebinding', 'other-parser-registration', 'raised-inside-handler', 'debug:True', 'debug:False'),
         nontrivial=lambda c: 'callback-aborted' in hist_classes(c) or len(c['history']) >= 3,
         rule='a long-lived parser with fixed bindings evaluates a generated history of 1-12 formulas (valid ones, lexical and syntax errors, run-time errors, error literals, callbacks that raise, callbacks whose own nested parse fails) interleaved with re-bindings of variables and cell values and with registrations made on a different parser object; '
              'after every step each of 1-3 probe formulas must give the outcome a fresh parser given the same (re)bindings and no other history gives; the other debug setting must give the same outcomes; non-trivial = a callback-aborted evaluation or at least 3 steps'),
+    Law('long_history', check_long_history, strategy=st.fixed_dictionaries({'n': st.integers(20, 300), 'pattern': st.lists(st.integers(0, len(LONG_FAIL) - 1), min_size=1, max_size=4), 'debug': st.booleans()}),
+        quick=70, thorough=2500, shards=(16, 16), weight=lambda c: c['n'], nontrivial=lambda c: c['n'] >= 65, classes=lambda c: ('n>=100',) if c['n'] >= 100 else ('n<100',), required=('n>=100',),
+        rule='one parser evaluates 20-300 formulas repeating a pattern of 1-4 of 20 kinds, nearly all failing (unknown names, syntax and lexical errors, error literals, raising host functions and listeners, errors raised inside handlers, failing nested evaluations, error values); '
+             'after every one of them a formula with a listener-served range must give its fixed value; non-trivial = at least 65 evaluations'),
     Law('no_host_mutation', check_mutation, strategy=mut_case(), quick=5000, thorough=100000, shards=(8, 16),
         nontrivial=lambda c: len(c['formulas']) >= 2,
         rule='1-4 of 75 formulas that push host lists (variable values flat and nested, a listener-served range and cell value, arguments handed to and a list returned by custom functions) through array arithmetic, array literals, omitted-slot calls, '
